@@ -105,7 +105,7 @@ def _mutants(pid):
     if os.path.exists(mj):
         for name, m in sorted(json.load(open(mj)).items()):
             if m.get("property") == pid:
-                out.append((name, os.path.join(VERIF, "audit", name + ".diff"), "written for the audit"))
+                out.append((name, os.path.join(VERIF, "audit", name + ".diff"), "written for the audit" + (" (benign: must NOT be reported)" if m.get("expect") == "no-alarm" else "")))
     sd = os.path.join(VERIF, "seeded")
     if os.path.isdir(sd):
         for d in sorted(os.listdir(sd)):
@@ -139,6 +139,9 @@ def strength_audit(pid):
                             "with_failing_input": any(not v.rstrip().endswith("no-failing-input-found") for v in vio)})
         finally:
             shutil.rmtree(scratch, ignore_errors=True)
-    applicable = [d for d in details if d.get("detected") is not None]
+    benign = [d for d in details if "benign" in d.get("origin", "")]
+    applicable = [d for d in details if d.get("detected") is not None and d not in benign]
     return {"mutants": len(applicable), "detected": len([d for d in applicable if d["detected"]]),
-            "survivors": [d["mutant"] for d in applicable if not d["detected"]], "details": details}
+            "survivors": [d["mutant"] for d in applicable if not d["detected"]],
+            "benign_changes": len(benign), "benign_reported": [d["mutant"] for d in benign if d.get("exit") != 0],
+            "details": details}
